@@ -1475,6 +1475,11 @@ impl Analyzable for TxDef {
         // name, where two of them would collapse into one query
         let mut input_names = std::collections::HashSet::new();
 
+        // the collateral block is resolved through that same map, under this name
+        if !self.collateral.is_empty() {
+            input_names.insert("collateral".to_string());
+        }
+
         for input in self.inputs.iter() {
             if !input_names.insert(input.name.to_lowercase()) {
                 params
